@@ -16,8 +16,13 @@ package routing_test
 //             cleanup whose maxAge nothing can have reached removes nothing;
 //   frame   : add never removes, withdraw removes only the named (key, origin), no
 //             operation creates unrelated entries or touches another table.
-// No wall-clock verdict: cleanup is only run with maxAge = -1h ("everything stale"),
-// 0, or 100000h ("nothing stale"), and only the "never removes" directions are judged.
+//   accept  : when an add creates or replaces an entry, what is stored is the accepted
+//             submission: next hop = the peer it came through, its sequence, its metric
+//             (+1 hop through the Manager). The harness keeps its own record of that peer
+//             per entry and decides the disconnect rule on it, not on the stored NextHop.
+// No wall-clock verdict: cleanup is run with maxAge = -1h ("everything stale"), 0,
+// 100000h ("nothing stale") or "time since the age mark" (partial: see c8Op.SinceMark), and
+// only the "never removes" directions are judged (local routes always; anything at 100000h).
 
 import (
 	"fmt"
@@ -38,7 +43,7 @@ func TestVerif_C10(t *testing.T) {
 		"non-trivial = history with >=1 accepted replacement, >=1 refused stale or looped submission, >=1 disconnect that removed some but not all routes, " +
 		">=1 stale cleanup that had a local route to spare; distinct by hash of the operation list")
 	n := r.N(2000, 60000)
-	r.ParCases("hist", n, 4, func(ci int, rng *verifkit.Rand) { c10History(r, "hist", ci, rng) })
+	r.ParCases("hist", n, 8, func(ci int, rng *verifkit.Rand) { c10History(r, "hist", ci, rng) })
 	r.Require("transitions", 100000)
 	r.Require("replacements_accepted", 3000)
 	r.Require("submissions_not_newer_refused", 3000)
@@ -48,6 +53,10 @@ func TestVerif_C10(t *testing.T) {
 	r.Require("stale_cleanup_local_survivors", 1000)
 	r.Require("stale_cleanup_removed_routes", 1000)
 	r.Require("withdraw_removed_routes", 1000)
+	r.Require("replacements_via_other_peer_cidr", 300)
+	r.Require("replacements_via_other_peer_domain", 300)
+	r.Require("replacements_via_other_peer_forward", 300)
+	r.Require("partial_stale_cleanups", 300)
 }
 
 type c10Stats struct {
@@ -63,7 +72,12 @@ func c10Index(es []c8Ent) map[string]*c8Ent {
 }
 
 // c10Judge checks one transition of the table the operation was aimed at.
-func c10Judge(r *verifkit.R, w *c8World, phase string, ci int, op *c8Op, before, after []c8Ent, st *c10Stats, witness func() any) {
+//
+// via is the harness's own record of "the peer each stored route was learned through": the
+// next hop of the submission that created the entry or was last ACCEPTED for it (seen as a
+// content change). The disconnect rule is decided on that record, not on what the table
+// says the next hop is, and every accepted submission is compared with what got stored.
+func c10Judge(r *verifkit.R, w *c8World, rig *c8Rig, via map[string]c8ID, phase string, ci int, op *c8Op, before, after []c8Ent, st *c10Stats, witness func() any) {
 	kind := op.Kind
 	bad := func(sym, msg string) { r.Violation(kind+":"+sym, phase, ci, msg, witness()) }
 	bm, am := c10Index(before), c10Index(after)
@@ -100,6 +114,7 @@ func c10Judge(r *verifkit.R, w *c8World, phase string, ci int, op *c8Op, before,
 				bad("add-created-unrelated-route", fmt.Sprintf("an add for other identities made %s appear", a.show(w)))
 			default:
 				r.Add("routes_created", 1)
+				c10Accepted(r, w, rig, via, kind, id, targets[id], op.Batch, nil, a, bad)
 			}
 			continue
 		}
@@ -115,6 +130,7 @@ func c10Judge(r *verifkit.R, w *c8World, phase string, ci int, op *c8Op, before,
 				r.Add("replacements_same_seq_lower_metric", 1)
 			}
 			st.replaced = true
+			c10Accepted(r, w, rig, via, kind, id, targets[id], op.Batch, b, a, bad)
 		case a.Seq < b.Seq:
 			bad("replaced-by-older-sequence", fmt.Sprintf("stored %s was replaced by %s, which has an older sequence", b.show(w), a.show(w)))
 		default:
@@ -144,11 +160,18 @@ func c10Judge(r *verifkit.R, w *c8World, phase string, ci int, op *c8Op, before,
 				}
 			}
 		case "disconnect":
+			learned, known := via[id]
+			if !known {
+				learned = b.NextHop
+			}
+			if learned != b.NextHop {
+				r.Add("disconnect_judged_on_rehomed_route", 1)
+			}
 			switch {
-			case b.NextHop == op.Peer && a != nil:
-				bad("disconnect-left-route-via-peer", fmt.Sprintf("after disconnect of %s the route %s learned through it is still stored", w.name(op.Peer), b.show(w)))
-			case b.NextHop != op.Peer && a == nil:
-				bad("disconnect-removed-route-via-other-peer", fmt.Sprintf("disconnect of %s removed %s, which was learned through %s", w.name(op.Peer), b.show(w), w.name(b.NextHop)))
+			case learned == op.Peer && a != nil:
+				bad("disconnect-left-route-via-peer", fmt.Sprintf("after disconnect of %s the route %s is still stored although its last accepted advertisement came through %s", w.name(op.Peer), b.show(w), w.name(learned)))
+			case learned != op.Peer && a == nil:
+				bad("disconnect-removed-route-via-other-peer", fmt.Sprintf("disconnect of %s removed %s, whose last accepted advertisement came through %s", w.name(op.Peer), b.show(w), w.name(learned)))
 			case a == nil:
 				r.Add("disconnect_removed_routes", 1)
 			default:
@@ -169,6 +192,14 @@ func c10Judge(r *verifkit.R, w *c8World, phase string, ci int, op *c8Op, before,
 			}
 		}
 	}
+	for id := range bm {
+		if am[id] == nil {
+			delete(via, id)
+		}
+	}
+	if op.Op == "cleanup" && c8PartialCleanup(w, before, after) {
+		r.Add("partial_stale_cleanups", 1)
+	}
 	if op.Op == "disconnect" {
 		gone, kept := 0, 0
 		for id := range bm {
@@ -181,6 +212,38 @@ func c10Judge(r *verifkit.R, w *c8World, phase string, ci int, op *c8Op, before,
 		if gone > 0 && kept > 0 {
 			st.discPartial = true
 		}
+	}
+}
+
+// c10Accepted is called when an add created (old == nil) or replaced an entry: what is now
+// stored must be the submission that was accepted — in particular its next hop must be the
+// peer the advertisement came through, which is what a later disconnect is decided on.
+func c10Accepted(r *verifkit.R, w *c8World, rig *c8Rig, via map[string]c8ID, kind, id string, sub *c8Ent, batch []c8Ent, old, now *c8Ent, bad func(sym, msg string)) {
+	via[id] = sub.NextHop
+	if old != nil && old.NextHop != sub.NextHop {
+		r.Add("replacements_via_other_peer", 1)
+		r.Add("replacements_via_other_peer_"+kind, 1)
+	}
+	if now.NextHop != sub.NextHop {
+		bad("stored-next-hop-is-not-the-advertising-peer", fmt.Sprintf("the accepted submission %s came through %s but the table stores %s", sub.show(w), w.name(sub.NextHop), now.show(w)))
+	}
+	managerLocal := rig.mgr != nil && c8IsLocalForm(sub, w.local) && kind != c8Agent // the manager numbers its own announcements
+	if !managerLocal && now.Seq != sub.Seq {
+		bad("stored-sequence-differs-from-submission", fmt.Sprintf("the accepted submission %s is stored as %s", sub.show(w), now.show(w)))
+	}
+	// metric: one of the batch entries for this identity (the manager adds one hop to what a neighbour advertised)
+	inc := uint16(0)
+	if rig.mgr != nil && !c8IsLocalForm(sub, w.local) && kind != c8Agent {
+		inc = 1
+	}
+	ok := false
+	for i := range batch {
+		if batch[i].ident() == id && batch[i].Metric+inc == now.Metric {
+			ok = true
+		}
+	}
+	if !ok {
+		bad("stored-metric-differs-from-submission", fmt.Sprintf("the accepted submission %s is stored as %s", sub.show(w), now.show(w)))
 	}
 }
 
@@ -206,12 +269,16 @@ func c10History(r *verifkit.R, phase string, ci int, rng *verifkit.Rand) {
 		snaps[k] = rig.tabs[k].Snap()
 	}
 	var st c10Stats
+	via := map[string]c8ID{}
 	nops := rng.Range(30, 250)
 	for s := 0; s < nops; s++ {
 		kind := verifkit.Pick(rng, c8Kinds)
 		op := gen.genOp(kind, snaps[kind])
 		steps = append(steps, op.show(w))
 		rig.apply(&op)
+		if op.Op == "mark" {
+			continue
+		}
 		r.Add("transitions", 1)
 		r.Add("op_"+kind+"_"+op.Op, 1)
 		for _, k := range c8Kinds {
@@ -224,7 +291,7 @@ func c10History(r *verifkit.R, phase string, ci int, rng *verifkit.Rand) {
 				return map[string]any{"history": steps, "table": k, "before": c8ShowAll(w, before), "after": c8ShowAll(w, after)}
 			}
 			if k == kind {
-				c10Judge(r, w, phase, ci, &op, before, after, &st, wit)
+				c10Judge(r, w, rig, via, phase, ci, &op, before, after, &st, wit)
 			} else if !c10SameTable(before, after) {
 				r.Violation("cross-table:"+op.Op+"-changed-other-table", phase, ci,
 					fmt.Sprintf("a %s on the %s table changed the contents of the %s table", op.Op, kind, k), wit())
@@ -263,8 +330,9 @@ func TestVerif_C10_Conc(t *testing.T) {
 	rounds := r.N(20, 300)
 	r.Cases("conc", rounds, func(ci int, rng *verifkit.Rand) { c10ConcRound(r, "conc", ci, rng) })
 	r.Require("conc_snapshots", 5000)
-	r.Require("conc_replacements_seen", 1000)
-	r.Require("conc_local_routes_checked", 5000)
+	// how many replacements the readers happen to witness depends on the schedule: low floors, tiered
+	r.Require("conc_replacements_seen", int64(r.N(100, 1000)))
+	r.Require("conc_local_routes_checked", int64(r.N(2000, 5000)))
 }
 
 func c10ConcRound(r *verifkit.R, phase string, ci int, rng *verifkit.Rand) {
